@@ -341,7 +341,7 @@ Section ParserFuel.
             { apply IH; [exact Ht|cbn [fst]; unfold slack at 1; cbn; lia]. }
             rewrite E0 in Hx. exact Hx. }
         destruct (tk t =? c_LTOKEN_RPAREN).
-        { destruct (match p_sub st, p_conj st, p_toks st with Some _, None, [] => true | _, _, _ => false end); [exact I|].
+        { destruct (match p_sub st, p_conj st, p_toks st with None, None, [] => true | _, _, _ => false end); [exact I|].
           apply p_finish_bind_okerr. }
         destruct ((tk t =? c_LTOKEN_AND) || (tk t =? c_LTOKEN_OR) || (tk t =? c_LTOKEN_XOR)).
         { destruct (p_sub st); [|exact I].
